@@ -20,7 +20,7 @@ ASSUMPTIONS = ["shift counts are kept within -40..40 so that values stay small (
 DECIDING_COUNTERS = ["expressions_evaluated", "values_compared", "rejections_expected", "rejections_confirmed"]
 MIN_DISTINCT = 500
 
-CHARS = "abcdefghijklmnopqrstuvwxyzABCDEFGHIJKLMNOPQRSTUVWXYZ0123456789!#$%&*+,-.:<=>?@[]^_{|}~ "
+CHARS = "abcdefghijklmnopqrstuvwxyzABCDEFGHIJKLMNOPQRSTUVWXYZ0123456789!#$%&*+,-.:<=>?@[]^_{|}~ " + "яЖюЯабвг" * 3     # bytes >= 0x80 under bk too
 R50 = "ABCDEFGHIJKLMNOPQRSTUVWXYZ$.%0123456789"
 
 
@@ -98,7 +98,7 @@ def build_env(rnd):
     return env
 
 
-def build_program(rnd, env, exprs, directive=".dword", repeated=()):
+def build_program(rnd, env, exprs, directive=".dword", repeated=(), indexed=()):
     from vlib import apm
     base = rnd.choice([0o1000, 0, 0o2000, 0o100000, 0o40000])
     before = [apm.assign(c, apm.num(v)) for c, v in env["values"].items() if rnd.random() < 0.5]
@@ -119,6 +119,9 @@ def build_program(rnd, env, exprs, directive=".dword", repeated=()):
     stmts += [apm.label("7$"), apm.blk(".blkb", apm.num(2 * rnd.randrange(0, 20)))]
     for e in exprs[half:]:
         stmts.append(apm.data(directive, e))
+    for e in indexed:
+        # the expression as the (unbracketed) offset of an index operand: the register belongs to the whole expression
+        stmts.append(apm.insn(rnd.choice(["mov", "cmp", "bis"]), (rnd.choice(["idx", "idx", "idxd"]), e, rnd.randrange(6)), ("reg", rnd.randrange(6))))
     for e in repeated:
         # the expression in every copy of a repeat body, as an implicit word list or an explicit '.word': '.' differs from copy to copy
         masked = ("bin", "&", ("grp", e), apm.num(0o177777))
@@ -176,6 +179,19 @@ def run_shard(spec):
                 if classify(rp)[0] == "ok":
                     cases.append({"kind": "batch", "prog": apm.to_json(rp), "style_seed": style_seed})
                     cnt["repeat_batches"] = cnt.get("repeat_batches", 0) + 1
+            def spine(d):
+                # a chain of + - * that nests to the RIGHT (a + b*c, a - b + c*d ...): written without brackets in front of '(rN)'
+                left = rnd.choice([apm.num(rnd.randrange(0, 64)), ("sym", rnd.choice(env["consts"])), ("sym", rnd.choice(env["labels"]))] +
+                                  ([("grp", rnd.choice(plain))] if plain else []))
+                if d <= 0:
+                    return rnd.choice([apm.num(rnd.randrange(0, 9)), ("sym", rnd.choice(env["shifts"]))])
+                return ("bin", rnd.choice(["+", "-", "*", "+"]), left, spine(d - 1))
+            nested = [e for e in plain if e[0] == "bin" and apm.depth(e) >= 2] + [spine(rnd.randrange(2, 5)) for _ in range(6)]
+            for e in rnd.sample(nested, min(len(nested), 6)):
+                ip = build_program(rnd, env, [], indexed=[e])
+                if classify(ip)[0] == "ok":
+                    cases.append({"kind": "batch", "prog": apm.to_json(ip), "style_seed": 0, "plainstyle": True})
+                    cnt["index_operand_expressions"] = cnt.get("index_operand_expressions", 0) + 1
             for e in bad[:6]:
                 cases.append({"kind": "reject", "prog": apm.to_json(build_program(rnd, env, [e], rnd.choice([".dword", ".word"]))), "style_seed": style_seed})
             # the explicit rejection rules of the statement
@@ -237,8 +253,8 @@ def run_case(case, cnt=None, root=None):
             return out
         prog = apm.from_json(case["prog"])
         srnd = random.Random(case["style_seed"])
-        style = apm.Style(srnd, case=srnd.choice([0, 0.5]), radix=0.0, brackets=srnd.choice([0, 0.3, 0.6]), ws=srnd.choice([0, 0.3]),
-                          bracket_kinds=srnd.choice([("(",), ("<",), ("(", "<", "^"), ("^",)]))
+        style = apm.Style(srnd, case=srnd.choice([0, 0.5]), radix=0.0, brackets=srnd.choice([0, 0.3, 0.6]) if not case.get("plainstyle") else 0.0, ws=srnd.choice([0, 0.3]),
+                          bracket_kinds=srnd.choice([("(",), ("<",), ("(", "<", "^"), ("^",)]) if not case.get("plainstyle") else ("<",))
         c = {}
         verdict, msgs, o, texts = refcheck.run_prog_case(prog, root, c, style=style)
         nexpr = sum(1 for s in prog.files[0].stmts if s.k == "data" and s.d in (".dword", ".word") and s.exprs and s.exprs[0][0] != "num" or
